@@ -147,7 +147,7 @@ thread_local! {
 fn mk_block(index: u64, term: u64) -> Block {
     let k = hash_combine(index.wrapping_mul(0x9E37), term.wrapping_add(77));
     let mut h = BlockHeader::default();
-    if BIG_BLOCKS.with(|b| b.get()) && (k >> 20) % 5 == 0 {
+    if BIG_BLOCKS.with(|b| b.get()) && (k >> 20) % 8 == 0 {
         let len = (1usize << 20) + 4096 + ((k >> 8) as usize % (2 << 20));
         h.signature = Rng::new(k).bytes(len);
     }
@@ -1521,7 +1521,7 @@ impl Sim {
                 }
                 prev = *b;
             }
-            for _ in 0..24 {
+            for _ in 0..12 {
                 pts.insert(lo + self.rng.below((len - lo + 1) as usize) as u64);
             }
             pts.insert(lo);
@@ -1738,7 +1738,7 @@ fn run_case_inner(part: Part, seed: u64, big: bool, base: &Path, quick: bool, r:
     }
     let l0 = file_len(&sim.wal);
     sim.calls.insert(l0);
-    let crashes = 1 + sim.rng.below(3);
+    let crashes = if big { 1 + sim.rng.below(2) } else { 1 + sim.rng.below(3) };
     let n0 = 3 + sim.rng.below(if part == Part::Snapshot { 12 } else { 10 });
     sim.run_steps(n0, r);
     sim.judge(0, r);
@@ -2086,11 +2086,11 @@ fn main() {
         }
     } else if space_ok {
         let n_main = args.by_tier(6_000u64, 400_000u64);
-        let rep = par_cases(args.threads, args.seed, n_main, args.budget(36, 540), |i, s, r| run_case(Part::Main, s, i % 24 == 5, &base, quick, r));
+        let rep = par_cases(args.threads, args.seed, n_main, args.budget(36, 540), |i, s, r| run_case(Part::Main, s, i % 16 == 5 && (!quick || i < 160), &base, quick, r));
         total.count("main_cases", rep.counters.get("cases").copied().unwrap_or(0));
         total.merge(rep);
         let n_snap = args.by_tier(1_200u64, 80_000u64);
-        let rep = par_cases(args.threads, args.seed ^ 0x5A, n_snap, args.budget(18, 200), |i, s, r| run_case(Part::Snapshot, s, i % 24 == 5, &base, quick, r));
+        let rep = par_cases(args.threads, args.seed ^ 0x5A, n_snap, args.budget(18, 200), |i, s, r| run_case(Part::Snapshot, s, i % 16 == 5 && (!quick || i < 80), &base, quick, r));
         total.count("snapshot_cases", rep.counters.get("cases").copied().unwrap_or(0));
         total.merge(rep);
         // each case runs 2-3 threads of its own
@@ -2108,6 +2108,8 @@ fn main() {
         rule: "A case = one real RaftNode::with_wal driven by a seeded hostile environment for 3-12 protocol steps (one step may be a whole leadership: win an election, replicate and commit entries, accept more, compact the log behind a snapshot, get deposed by a leader that lacks the uncommitted tail), then up to 3 times: cut the real WAL file at a chosen byte (60% inside one of the last three records, 15% anywhere, 25% between records), restart the real node on it, drive 2-8 more steps. After every phase every truncation of the (new part of the) WAL file — every byte when the part is <= 1400 (quick) / 3000 (thorough) bytes, otherwise all record/ack boundaries -2..+9 bytes, every byte of the last three records and a seeded sample — is restarted with RaftNode::with_wal and judged against the promise ledger (term, vote of the recovered term, acknowledged entries by position and bytes, log shape at ack boundaries, and a probing RequestVote from another candidate). One evaluation = one phase (one WAL file with its ledger); it is distinct by the hash of the WAL bytes and non-trivial when at least one obligation applied to some judged image and at least one judged image ended inside a record.",
         assumptions: vec![
             "crashes are process crashes: the file keeps a prefix of what had reached it (write(2) level); bytes still in a user-space buffer when a call returned are lost — that is how 'answered before the record reached the file' is observed; fsync itself is not observable here".into(),
+            "a message handed to the node's transport has left the node: what it announces (term, own candidacy, replicated entries) is stamped with the WAL length at the moment of the hand-over, not at the return of the call, and counts even when the call then fails (one election in eight has its broadcast fail after the first peer); one message in three is delivered through handle_message_async, whose reply leaves through the transport as well".into(),
+            "every 16th of the first cases (all through in thorough) uses 1-3 MiB incompressible blocks for about an eighth of its entries (appended, proposed, replicated, in snapshots); its crash images are sampled at record/ack boundaries -1/+0/+1/+8, record middles and 12 seeded offsets".into(),
             "obligations come only from what the node emitted: replies of handle_message, messages it put on the transport, Ok results of propose; an entry obligation ends only when the node later answers success to an AppendEntries carrying a different-term entry at or below that index, or (snapshot part) when a snapshot install replaces the log with different entries from that index on (entries the snapshot repeats stay promised during the install's own WAL writes), cuts the log behind the snapshot, or covers what precedes its first entry; an install on a node that already holds the snapshot's last entry (same index and term) changes no promise; a success reply also promises the leader's entries up to prev_log_index (match_index covers them: the node checked prev itself) unless prev is a compacted position".into(),
             "when the live log stops following the reference model after a reply (last_log_index / last_log_term differ from what the Raft follower rule gives for the answered messages) the case takes no further steps, but its crash images are still judged against the promises made so far; it is reported inconclusive only if nothing is refuted".into(),
             "a restarted node holds indices (last_log_index - log_length + 1)..=last_log_index (the run of consecutive indices that ends the recovered log); a promised entry must be held there with the same bytes. Entries carried by an AppendEntries at positions the live node has compacted behind a snapshot create no promise (the node answers for the snapshot there), and promises for entries in front of an installed snapshot's first entry end with that install".into(),
@@ -2144,6 +2146,9 @@ fn main() {
                 ("log_compactions", 40),
                 ("conflict_truncations_on_a_compacted_log", 8),
                 ("conflict_truncations_followed_by_entries_inside_the_old_range", 30),
+                ("wal_records_larger_than_1MiB", 3),
+                ("elections_with_failed_broadcast", 15),
+                ("messages_handled_through_handle_message_async", 200),
                 ("concurrent_vote_rounds", 500),
                 ("rounds_where_both_requests_overlapped", 200),
                 ("concurrent_vote_grants", 400),
